@@ -31,8 +31,9 @@ namespace Givaro {
 
 
     template <class Domain>
-    inline typename Poly1Dom<Domain,Dense>::Rep& Poly1Dom<Domain,Dense>::mulin( Rep& R, const Type_t& u ) const
+    inline typename Poly1Dom<Domain,Dense>::Rep& Poly1Dom<Domain,Dense>::mulin( Rep& R, const Type_t& u0 ) const
     {
+        const Type_t u(u0); // u0 may be a coefficient of the destination
         for(typename Rep::iterator ri = R.begin();ri!=R.end();++ri)
             _domain.mulin(*ri, u);
         return setdegree(R);
@@ -115,8 +116,9 @@ namespace Givaro {
 
     template <class Domain>
     inline typename Poly1Dom<Domain,Dense>::Rep& Poly1Dom<Domain,Dense>::mul
-    ( Rep& R, const Rep& P, const Type_t& u ) const
+    ( Rep& R, const Rep& P, const Type_t& u0 ) const
     {
+        const Type_t u(u0); // u0 may be a coefficient of the destination
         typename Rep::const_iterator ip = P.begin();
         R.resize(P.size());
         for(typename Rep::iterator ir = R.begin(); ir != R.end(); ++ir, ++ip)
@@ -186,8 +188,9 @@ namespace Givaro {
     }
 
     template <class Domain>
-    inline typename Poly1Dom<Domain,Dense>::Rep& Poly1Dom<Domain,Dense>::divin(Rep& R, const Type_t& u) const
+    inline typename Poly1Dom<Domain,Dense>::Rep& Poly1Dom<Domain,Dense>::divin(Rep& R, const Type_t& u0) const
     {
+        const Type_t u(u0); // u0 may be a coefficient of the destination
 #ifdef __GIVARO_DEBUG
         if (_domain.isZero(u)) GivError::throw_error(GivMathDivZero("[Poly1Dom<D>::divin]"));
 #endif
@@ -199,8 +202,9 @@ namespace Givaro {
 
 
     template <class Domain>
-    inline typename Poly1Dom<Domain,Dense>::Rep& Poly1Dom<Domain,Dense>::div(Rep& R, const Rep& P, const Type_t& u) const
+    inline typename Poly1Dom<Domain,Dense>::Rep& Poly1Dom<Domain,Dense>::div(Rep& R, const Rep& P, const Type_t& u0) const
     {
+        const Type_t u(u0); // u0 may be a coefficient of the destination
 #ifdef __GIVARO_DEBUG
         if (_domain.isZero(u)) GivError::throw_error(GivMathDivZero("[Poly1Dom<D>::div]"));
 #endif
@@ -213,8 +217,9 @@ namespace Givaro {
 
 
     template <class Domain>
-    inline typename Poly1Dom<Domain,Dense>::Rep& Poly1Dom<Domain,Dense>::div(Rep& R, const Type_t& u, const Rep& P) const
+    inline typename Poly1Dom<Domain,Dense>::Rep& Poly1Dom<Domain,Dense>::div(Rep& R, const Type_t& u0, const Rep& P) const
     {
+        const Type_t u(u0); // u0 may be a coefficient of the destination
 #ifdef __GIVARO_DEBUG
         if (isZero(P)) GivError::throw_error(GivMathDivZero("[Poly1Dom<D>::div]"));
 #endif
@@ -314,8 +319,9 @@ namespace Givaro {
 
 
     template <class Domain>
-    inline typename Poly1Dom<Domain,Dense>::Rep& Poly1Dom<Domain,Dense>::mod(Rep& R, const Type_t& u, const Rep& P) const
+    inline typename Poly1Dom<Domain,Dense>::Rep& Poly1Dom<Domain,Dense>::mod(Rep& R, const Type_t& u0, const Rep& P) const
     {
+        const Type_t u(u0); // u0 may be a coefficient of the destination
 #ifdef __GIVARO_DEBUG
         if (isZero(P)) GivError::throw_error(GivMathDivZero("[Poly1Dom<D>::mod]"));
 #endif
